@@ -2,6 +2,7 @@ package cond
 
 import (
 	"fmt"
+	"reflect"
 	"sort"
 	"strings"
 
@@ -253,7 +254,25 @@ func genMapUnit(x g, cfg Cfg) *Unit {
 			node = IsNull(col)
 		case c < 5:
 			vs := genList(x, col, cfg)
-			m[cfg.key(col)] = goSlice(x, vs, IsText(col))
+			sl := goSlice(x, vs, IsText(col))
+			switch x.n(6) {
+			case 0: // a pointer to the slice is a list too
+				p := reflect.New(reflect.TypeOf(sl))
+				p.Elem().Set(reflect.ValueOf(sl))
+				sl = p.Interface()
+				u.Feats["map:pointer-to-slice"] = true
+			case 1: // an array / a pointer to an array
+				rv := reflect.ValueOf(sl)
+				p := reflect.New(reflect.ArrayOf(rv.Len(), rv.Type().Elem()))
+				reflect.Copy(p.Elem(), rv)
+				if x.pct(50) {
+					sl = p.Interface()
+				} else {
+					sl = p.Elem().Interface()
+				}
+				u.Feats["map:array"] = true
+			}
+			m[cfg.key(col)] = sl
 			u.Feats["map:slice"] = true
 			node = In(col, vs...)
 		default:
